@@ -28,6 +28,33 @@
 #include <iora/core/logger.hpp>
 #include <iora/common/i_lifecycle_managed.hpp>
 
+// Verification hook: IORA_VERIF_POINT("tag") marks a place where a deterministic test scheduler may
+// pre-empt the calling thread although no pthread call marks it. It expands to nothing unless
+// IORA_VERIF_HOOKS is defined, and even then does nothing until a test installs a callback.
+#ifndef IORA_VERIF_POINT
+#if defined(IORA_VERIF_HOOKS)
+namespace iora
+{
+namespace verif
+{
+inline void (*&pointHook())(const char *)
+{
+  static void (*hook)(const char *) = nullptr;
+  return hook;
+}
+} // namespace verif
+} // namespace iora
+#define IORA_VERIF_POINT(tag)                                                                      \
+  do                                                                                               \
+  {                                                                                                \
+    if (auto *iora_verif_h_ = ::iora::verif::pointHook())                                          \
+      iora_verif_h_(tag);                                                                          \
+  } while (0)
+#else
+#define IORA_VERIF_POINT(tag) ((void)0)
+#endif
+#endif
+
 namespace iora
 {
 namespace core
@@ -885,6 +912,7 @@ private:
           if (task)
           {
             VALIDATE_CANARY();
+            IORA_VERIF_POINT("tp:popped"); // task taken, _activeThreads not yet incremented
             ++_activeThreads; // Thread is now executing (for monitoring)
             try
             {
